@@ -563,8 +563,38 @@ Definition c07_body_border_first (a : attrs) (j : nat) : option str :=
   | _ => None
   end.
 
+(* clause 5: every other data-cell edge carries the user's border style for the cell's original position; the top edge of
+   the first and the bottom edge of the last data row of a page are the boundary edges of clauses 1-4 *)
+Definition bstyle_is (have : option bord) (want : res bord) : bool :=
+  match have, want with
+  | Some h, Ok w => tok_list_eqb (bd_style h) (bd_style w)
+  | _, _ => false
+  end.
+
+Fixpoint c07_cells (ctx : option (list str)) (a : attrs) (r : nat) (kept : list nat) (cells : list cell)
+         (ncols j : nat) (st sb : bool) : bool :=
+  match kept, cells with
+  | [], [] => true
+  | oc :: kept', c :: cells' =>
+    bstyle_is (ce_bl c) (mk_border ctx (a_bl a) (a_bcl a) (a_bw a) r oc)
+    && (st || bstyle_is (ce_bt c) (mk_border ctx (a_bt a) (a_bct a) (a_bw a) r oc))
+    && (negb (Nat.eqb (S j) ncols) || bstyle_is (ce_br c) (mk_border ctx (a_br a) (a_bcr a) (a_bw a) r oc))
+    && (sb || bstyle_is (ce_bb c) (mk_border ctx (a_bb a) (a_bcb a) (a_bw a) r oc))
+    && c07_cells ctx a r kept' cells' ncols (S j) st sb
+  | _, _ => false
+  end.
+
+Fixpoint c07_page (ctx : option (list str)) (a : attrs) (kept : list nat) (obs : list (nat * row)) (first : bool) : bool :=
+  match obs with
+  | [] => true
+  | (t, rw) :: rest =>
+    let last := match rest with [] => true | _ => false end in
+    c07_cells ctx a t kept (rw_cells rw) (length kept) 0 first last && c07_page ctx a kept rest false
+  end.
+
 (* clause ids: 1 top edge of the document's first table row; 2 bottom edge of its last table row;
-   3 bottom edge of the last table row before a page break; 4 top edge of the first data row of a page *)
+   3 bottom edge of the last table row before a page break; 4 top edge of the first data row of a page;
+   5 an interior data-cell edge *)
 Definition check_c07 (d : doc) (pd : pdoc) : nat :=
   match d_content d with
   | CSingle f b =>
@@ -613,7 +643,9 @@ Definition check_c07 (d : doc) (pd : pdoc) : nat :=
                             | None => true
                             end) (combine (seq 0 (length (rw_cells r))) (rw_cells r)))
                 end) (combine (seq 0 (length pages)) pages) in
-    if c1 then 1 else if c2 then 2 else if c3 then 3 else if c4 then 4 else 0
+    let c5 := negb (all_b (fun p => c07_page (Some (collect_colors d)) (b_attrs b) (kept_indices f b) (data_rows p) true)
+                          pages) in
+    if c1 then 1 else if c2 then 2 else if c3 then 3 else if c4 then 4 else if c5 then 5 else 0
   | _ => 0
   end.
 
